@@ -181,17 +181,17 @@ func (c *LimitCtx) Value(any) any { return nil }
 
 // Opts selects oracles.
 type Opts struct {
-	FsckAtFlush   bool // C07 at every completed Flush
-	ProbeAfterGC  bool // C04: full probe after every GC cycle
-	TripleReopen  bool // C02: snapshot / no snapshot / unusable snapshot
-	Conservation  bool // C13 (needs FlushEvery histories)
-	FinalReopen   bool
-	OnlyFsck      bool // C07 mode: report only fsck problems
-	Extra         []store.Option
-	AfterOp       func(r *Runner, i int, op Op)
-	BeforeReopen  func(r *Runner)
-	AfterClose    func(r *Runner) // between Close and the following Open of a reopen
-	AfterFlush    func(r *Runner) // after a successful Flush (also the one inside NewIterator)
+	FsckAtFlush  bool // C07 at every completed Flush
+	ProbeAfterGC bool // C04: full probe after every GC cycle
+	TripleReopen bool // C02: snapshot / no snapshot / unusable snapshot
+	Conservation bool // C13 (needs FlushEvery histories)
+	FinalReopen  bool
+	OnlyFsck     bool // C07 mode: report only fsck problems
+	Extra        []store.Option
+	AfterOp      func(r *Runner, i int, op Op)
+	BeforeReopen func(r *Runner)
+	AfterClose   func(r *Runner) // between Close and the following Open of a reopen
+	AfterFlush   func(r *Runner) // after a successful Flush (also the one inside NewIterator)
 }
 
 type Runner struct {
@@ -205,18 +205,18 @@ type Runner struct {
 	Step int
 	Rng  *rand.Rand
 
-	prevLayout map[string]fsck.Loc
-	freeSeen   int          // entries of the current .free file already accounted
-	stream     []fsck.Block // entries appended since the last quiescent point
-	batches    [][]fsck.Block
-	discarded  []fsck.Block
-	dead       bool
-	c          *consState
-	dirty      map[int]bool
-	LastGCErr  error
+	prevLayout       map[string]fsck.Loc
+	freeSeen         int          // entries of the current .free file already accounted
+	stream           []fsck.Block // entries appended since the last quiescent point
+	batches          [][]fsck.Block
+	discarded        []fsck.Block
+	dead             bool
+	c                *consState
+	dirty            map[int]bool
+	LastGCErr        error
 	unmarkedPossible bool
-	TrigF1     bool // a relocating primary GC cycle ran while superseded records could still be unmarked
-	hist       map[string]map[string]bool
+	TrigF1           bool // a relocating primary GC cycle ran while superseded records could still be unmarked
+	hist             map[string]map[string]bool
 }
 
 func NewRunner(env *core.Env, u gen.Universe, rt *hookrt.RT, res *core.CaseResult, opt Opts) *Runner {
@@ -889,7 +889,6 @@ func (r *Runner) ObserveFlags(ops []Op) {
 		}
 	}
 }
-
 
 // rebits closes the store and reopens it with another index bit size.
 func (r *Runner) rebits(o Op) {
